@@ -483,7 +483,13 @@ def request_bytes(method, url, headers=(), body=None, version='HTTP/1.1', vid=No
 async def simple_get(rec, port, url, headers=(), vid=None, method='GET', timeout=20.0, version='HTTP/1.1', body=None):
     """one request on its own connection; returns Resp"""
     c = Client(rec, port, name='c%s' % vid)
-    await c.open()
+    try:
+        await c.open()
+    except OSError:
+        # the proxy is not listening (any more): an empty response; the caller's liveness test decides what that means
+        r = Resp()
+        r.refused = True
+        return r
     hostport = url.split('/')[2] if '://' in url else 'x'
     hs = list(headers)
     await c.send(request_bytes(method, url, hs + [('Connection', 'close')], body=body, vid=vid, host=hostport, version=version))
